@@ -161,7 +161,7 @@ func (fc *FuncCtx) callUnknownFuncVal(call *ast.CallExpr, st *St) []Term {
 		st.glob[g] = fc.fresh("glob_"+g, st.glob[g].Sort)
 	}
 	fc.unknownCalls++
-	fc.Assumed["a function value read from a data structure (called at "+fc.pos(call)+") returns or panics (termination of the stored function is not covered); its result and its effects on maps, buffers and abstract globals are arbitrary"] = true
+	fc.Assumed["a function value read from a data structure (called at "+fc.pos(call)+") returns or panics (termination of the stored function is not covered); inside the calling function its result and its effects on maps, buffers and abstract globals are arbitrary, but the modifies clause the calling function declares to its own callers is not checked against this call (assumed: stored variable / type factories and type-variable generators touch nothing beyond it)"] = true
 	t := fc.typeOf(call)
 	if tup, ok := t.(*types.Tuple); ok {
 		var r []Term
@@ -238,6 +238,26 @@ func (fc *FuncCtx) evalConversion(call *ast.CallExpr, to types.Type, st *St) Ter
 		}
 		if tos.Kind == KUnint && tos.Name == "Any" {
 			return fc.boxAny(v)
+		}
+		// T(x) between two named struct types with identical underlying types (Go's conversion rule): the
+		// result has field by field the fields of x
+		if v.Sort.Kind == KData && tos.Kind == KData {
+			fd, fcn := fc.ctorFor(from)
+			td, tcn := fc.ctorFor(to)
+			if fd != nil && td != nil && !fd.IsUnion && !td.IsUnion && len(fcn.Fields) == len(tcn.Fields) {
+				ok := true
+				var args []Term
+				for i := range fcn.Fields {
+					if !fcn.Fields[i].Sort.Equal(tcn.Fields[i].Sort) {
+						ok = false
+						break
+					}
+					args = append(args, App(fcn.Fields[i].Sort, fcn.Fields[i].Name, v))
+				}
+				if ok {
+					return App(tos, tcn.Name, args...)
+				}
+			}
 		}
 	}
 	fc.unsupported(st, "conversion to "+to.String(), fc.pos(call))
